@@ -72,6 +72,88 @@ for _t in ("plain", "same", "diff"):
     reg(f"cf_relational_{_t}", props={"C05": "quick"}, claim=f"({_t} edge) ""the four selection tables related on one flag state: xor = union (+) intersection, difference = union on subject / intersection on clipping edges, shared-edge subsets, directions", **dict(CF, est_s=200))
 reg("cf_selfop_symmetry", props={"C06": "quick"}, claim="pair level: A op A keeps (intersection/union) or drops (difference/xor) every shared edge; commutative operations are symmetric in the operand tags", **CF)
 
+# --------------------------------------------------------------------------------------- L-FILL
+for f in ("f64", "f32"):
+    reg(f"fill_edge_{f}", file="fq/mod.rs", props={"C13": "quick" if f == "f64" else "thorough", "C07": "quick" if f == "f64" else "thorough", "C10": "thorough"},
+        lemma="L-FILL-EDGE", inst=f, unwind=4, est_s=240, cap_s=1800, mem_gb=16,
+        domain="one edge a->b, both endpoints on the N x N lattice window (either direction, possibly collapsed), any tags, fresh or arbitrary previous box; real SweepEvent::cmp, real BinaryHeap",
+        claim="process_polygon on one edge: collapsed edge creates nothing and leaves the box; otherwise exactly one mutually linked pair, left = lexicographically smaller endpoint whichever way the edge is written, tags copied, box extended by exactly the start point")
+for _nm in ("2h_2h", "1_1h", "0_2", "2_0"):
+  reg(f"fill_ids_{_nm}", file="fq/mod.rs", props={"C13": "quick", "C07": "quick", "C05": "quick"}, lemma="L-FILL-IDS", inst="f64", unwind=4, est_s=120, cap_s=1200, mem_gb=16,
+    domain=f"operand shapes {_nm} (polygons per operand, h = with a hole), all four operations symbolic; process_polygon replaced by a recorder",
+    claim="fill_queue's own loops: every exterior and interior ring of every polygon is passed on exactly once in order, subject rings tagged subject; contour ids increase per polygon (for Difference only per subject polygon); exterior flag per spec")
+
+# --------------------------------------------------------------------------------------- L-DISP
+DISP_MODELS = [("src/boolean/fill_queue.rs", "fill_queue", "crate::boolean::verif_kani::h_disp::fill_queue_model"),
+               ("src/boolean/subdivide_segments.rs", "subdivide", "crate::boolean::verif_kani::h_disp::subdivide_model"),
+               ("src/boolean/connect_edges.rs", "connect_edges", "crate::boolean::verif_kani::h_disp::connect_edges_model")]
+for nm, txt in (("poly_poly", "Polygon x Polygon"), ("poly_multi0", "Polygon x empty MultiPolygon"), ("poly_multi2", "Polygon x MultiPolygon of 2"),
+                ("multi0_multi0", "empty x empty MultiPolygon"), ("multi2_multi1", "MultiPolygon of 2 x MultiPolygon of 1"), ("multi0_multi2", "empty MultiPolygon x MultiPolygon of 2"),
+                ("multi0_poly", "empty MultiPolygon x Polygon"), ("multi2_poly", "MultiPolygon of 2 x Polygon"),
+                ("named_methods", "intersection/union/xor/difference convenience methods")):
+    reg(f"dispatch_{nm}", file="boolean/h_disp.rs", props={"C01": "quick", "C06": "quick", "C07": "quick", "C02": "quick"}, lemma="L-DISP", inst="f64", unwind=4,
+        est_s=60, cap_s=1200, mem_gb=16, native_models=DISP_MODELS,
+        domain="operands of concrete sizes (0..2 marked polygons), all operations symbolic; callee models: fill_queue (boxes: untouched for an operand without polygons, else arbitrary valid box in {0..7}^4 or untouched), subdivide (recorder), connect_edges (one of five concrete forest templates)",
+        claim=f"{txt}: one call of the common routine with (self, rhs) as (subject, clipping); sweep skipped iff the boxes are disjoint (touching boxes sweep); shortcut returns empty / subject / subject++clipping; assembly emits one polygon per exterior contour with exactly its listed holes")
+
+# --------------------------------------------------------------------------------------- L-NEST / L-ITER / L-SORT
+for nm in ("flat", "h20", "h21", "h10", "h10_h20"):
+    reg(f"nest_cases_{nm}", file="ce/mod.rs", props={"C02": "quick"}, lemma="L-NEST", inst="f64", unwind=5, est_s=60, cap_s=1200, mem_gb=16,
+        domain=f"forest of 3 contours of shape {nm} (the five shapes with parent-before-hole and exterior parents are all there are), depths 0..3 symbolic x lower edge absent / InOut / OutIn with any assigned contour id",
+        claim="Contour::initialize_from_context implements the four parent cases; exactly the parent gains the new hole id; nothing else changes")
+for nm in ("outin", "inout"):
+    reg(f"nest_index_unassigned_{nm}", file="ce/mod.rs", props={"C03": "quick"}, lemma="L-NEST", inst="f64", unwind=5, est_s=60, cap_s=1200, mem_gb=16,
+        domain=f"lower edge with unassigned contour id (-1), transition {nm}",
+        claim="initialize_from_context returns (no index panic) even when the lower edge's contour id was never assigned")
+for n in (3, 4, 5):
+    reg(f"iter_order_n{n}", file="ce/mod.rs", props={"C04": "quick" if n < 5 else "thorough", "C02": "quick" if n < 5 else "thorough"}, lemma="L-ITER", inst="generic T=(u8,bool)", unwind=7, est_s=60, cap_s=1200, mem_gb=16,
+        domain=f"all sorted sequences of {n} entries over 3 point values with arbitrary L/R kinds (R before L within a point)",
+        claim="precompute_iteration_order: a permutation whose cycles are exactly the same-point groups (walking never leaves the vertex), R ascending then L descending")
+reg("sort3", file="ce/mod.rs", props={"C15": "thorough"}, lemma="L-SORT", inst="f64", unwind=5, est_s=900, cap_s=2700, mem_gb=20,
+    domain="two result segments of different operands on the 3 x 3 lattice window (4 events)", claim="order_events: bubble sort terminates, output sorted and a permutation, other_pos pairs partners")
+
+# --------------------------------------------------------------------------------------- L-DIV
+for f in ("f64", "f32"):
+    q = "quick" if f == "f64" else "thorough"
+    reg(f"divide_contract_{f}", file="boolean/h_div.rs", props={"C13": q, "C16": q, "C03": q, "C04": q, "C10": "thorough"}, lemma="L-DIV", inst=f, unwind=4, est_s=400, cap_s=2400, mem_gb=20,
+        domain="any lattice segment (N x N window), any lattice point of its bounding box except the endpoints (on or off the segment), real BinaryHeap, real SweepEvent::cmp",
+        claim="divide_segment: two new events pushed, two mutually linked non-degenerate pairs meeting at the requested point, left event first in both (corner case 2 swaps roles), new events in the future of the sweep, tags inherited, endpoints unchanged")
+    reg(f"divide_ulp_{f}", file="boolean/h_div.rs", props={"C16": q, "C03": q, "C10": "thorough"}, lemma="L-DIV", inst=f, unwind=5, est_s=400, cap_s=2400, mem_gb=20,
+        domain="one-ulp lattice: x = 1 + i*ulp(1), i < 3, y in 0..3: near-vertical slivers at the resolution limit, where the one-ulp bump of corner case 1 is live code",
+        claim="divide_segment at the resolution limit: same contract; the realised point is the requested one or the documented one-ulp bump (the bump itself is the recorded finding KF4)")
+
+# --------------------------------------------------------------------------------------- L-INT
+INT = dict(file="boolean/h_int.rs", unwind=3, lemma="L-INT", mem_gb=16, cap_s=1800,
+           domain="two segments with endpoints on the N x N lattice window (all 8 coordinates symbolic); no stub: the float kernel is encoded bit-precisely")
+for f in ("f32", "f64"):
+    q = "quick" if f == "f32" else "thorough"
+    reg(f"int_classify_{f}", props={"C16": q, "C04": q, "C10": q}, inst=f, est_s=100 if f == "f32" else 400,
+        claim="intersection(): None/Point/Overlap exactly as the integer reference; points inside both boxes; within tolerance of the exact rational point; endpoint hits bit-identical; axis-parallel exact", **INT)
+    reg(f"int_swap_{f}", props={"C16": q}, inst=f, est_s=150 if f == "f32" else 600,
+        claim="intersection(a,b) vs intersection(b,a): same kind; identical point for endpoint hits and axis-parallel crossings, both within tolerance otherwise", **INT)
+    reg(f"int_scale_{f}", props={"C08": q}, inst=f, est_s=150 if f == "f32" else 600,
+        claim="intersection() commutes bit-identically with scaling of all coordinates by 2^k, k in -3..3", **INT)
+reg("int_agree", props={"C10": "quick"}, inst="f32+f64", est_s=300,
+    claim="f32 and f64 instantiations of intersection(): same kind; equal coordinates for endpoint hits and axis-parallel crossings", **INT)
+
+# --------------------------------------------------------------------------------------- C15 orders
+ORD = dict(file="boolean/h_ord.rs", unwind=3, mem_gb=20, cap_s=1800)
+for f in ("f64", "f32"):
+    for k, txt in (("ll", "two left events"), ("lr", "a left and a right event"), ("rr", "two right events")):
+        reg(f"evord_{k}_{f}", props={"C15": "quick" if f == "f64" else "thorough", "C10": "thorough"}, lemma="L-ORD-E", inst=f, est_s=300,
+            domain="two segments with endpoints on the N x N lattice window, any operand tags, validity: edges of one operand never overlap",
+            claim=f"impl Ord for SweepEvent on {txt}: never Equal, antisymmetric, equals the reference (x, y, right-before-left, lower segment first, subject first); is_before/is_after consistent", **ORD)
+for k in ("lll", "llr", "lrr", "rrr"):
+    reg(f"evord_triple_{k}", props={"C15": "thorough"}, lemma="L-ORD-E", inst="f64", est_s=900,
+        domain="three segments on the 3 x 3 lattice window, pairwise valid", claim=f"event order transitive on triples ({k}: endpoint kinds)", **dict(ORD, cap_s=2700))
+for f in ("f32", "f64"):
+    reg(f"segord_pair_{f}_n3", props={"C15": "quick" if f == "f32" else "thorough", "C06": "thorough"}, lemma="L-ORD-S", inst=f, est_s=500,
+        domain="two left events, endpoints on the 3 x 3 lattice window, any operand tags; same-operand overlaps excluded",
+        claim="compare_segments: Equal iff identical, antisymmetric, equals the vertical order of non-crossing pairs where separated, subject below for coincident edges, vertical-edge convention", **ORD)
+    reg(f"segord_pair_{f}", props={"C15": "thorough", "C10": "thorough"}, lemma="L-ORD-S", inst=f, est_s=1500,
+        domain="two left events, endpoints on the N x N lattice window (N = 6 in the thorough tier)",
+        claim="compare_segments: Equal iff identical, antisymmetric, equals the vertical order of non-crossing pairs where separated, subject below for coincident edges, vertical-edge convention", **dict(ORD, cap_s=3600, mem_gb=24))
+
 # --------------------------------------------------------------------------------------- C18 L-DEPTH
 DEPTH = dict(file="splay/h_depth.rs", lemma="L-DEPTH", mode="recursion", unwind=8, inst="SplayTree<u8,u8,fn>", est_s=20, cap_s=600,
              domain="chains of 12 nodes (left and right), unwind bound 8: recursion deeper than 8 on a 12-chain is reported by CBMC's recursion unwinding assertion")
